@@ -474,6 +474,36 @@ fn get_quote_symbol(value: &[u8]) -> char {
     }
 }
 
+#[cfg(feature = "verif")]
+pub fn verif_needs_escaping(character: u8) -> bool {
+    needs_escaping(character)
+}
+
+#[cfg(feature = "verif")]
+pub fn verif_needs_quoted_string(character: &u8) -> bool {
+    needs_quoted_string(character)
+}
+
+#[cfg(feature = "verif")]
+pub fn verif_get_quote_symbol(value: &[u8]) -> char {
+    get_quote_symbol(value)
+}
+
+#[cfg(feature = "verif")]
+pub fn verif_escape(character: u8, next_character: Option<u8>) -> String {
+    escape(character, next_character)
+}
+
+#[cfg(feature = "verif")]
+pub fn verif_write_quoted(value: &[u8]) -> String {
+    write_quoted(value)
+}
+
+#[cfg(feature = "verif")]
+pub fn verif_write_long_bracket(value: &[u8]) -> Option<String> {
+    write_long_bracket(value)
+}
+
 #[cfg(test)]
 mod test {
     use super::*;
